@@ -88,10 +88,24 @@ void AsmContext::init()
 {
   tokens_reset(this);
 
-  // Default to MSP430.
+  // Default to MSP430.  Every pass starts with that CPU's settings, not
+  // with what the last CPU directive of the pass before left behind.
   parse_instruction = parse_instruction_msp430;
   list_output = list_output_msp430;
   cpu_list_index = -1;
+
+  cpu_type               = CPU_TYPE_MSP430;
+  memory.endian          = ENDIAN_LITTLE;
+  is_dollar_hex          = false;
+  strings_have_dots      = false;
+  strings_have_slashes   = false;
+  can_tick_end_string    = false;
+  pass_1_write_disable   = true;
+  ignore_number_postfix  = false;
+  numbers_dont_have_dots = false;
+  parse_directive        = nullptr;
+  link_function          = link_function_msp430;
+  flags                  = 0;
 
   address           = 0;
   instruction_count = 0;
